@@ -43,6 +43,7 @@ type mapEnv struct {
 	maxKey  uint32
 	maxElem uint32
 	// persistence (C03)
+	hip         atree.HashInputProvider
 	persist     bool
 	hasCommit   bool
 	committed   map[hx.TV]hx.TV
@@ -76,7 +77,7 @@ func (e *mapEnv) dispose(s atree.Storable) {
 }
 
 func (e *mapEnv) keyStr(k hx.TV) string {
-	digs, err := hx.Digests(e.b, k)
+	digs, err := hx.DigestsWith(e.b, e.hip, k)
 	if err != nil {
 		panic(err)
 	}
@@ -158,12 +159,18 @@ func mapStreamX(cfg *Config, name string, collide bool) *hx.Stats {
 		}
 		mode := 0
 		if collide {
-			mode = 1 + rng.Intn(5)
+			mode = 1 + rng.Intn(6)
 		}
 		if e.persist {
 			mode = []int{0, 0, 2, 3}[p%4] // a reload needs a digester a fresh handle can rebuild: real, or the same table
 		}
-		runMapProgram(e, nOps, mode, rng.Intn(5), rng.Intn(3))
+		valProf, opProf := rng.Intn(5), rng.Intn(3)
+		if collide && !e.persist && p%4 == 0 {
+			// external collision groups of LARGE elements that collapse back to a single element:
+			// first-level collisions only, values just over half the element limit, grow-then-shrink
+			mode, valProf, opProf = 7, 3, 1
+		}
+		runMapProgram(e, nOps, mode, valProf, opProf)
 		st.Programs++
 		seen[fmt.Sprintf("%d/%d/%d", T, mode, e.step)] = true
 		if len(st.Violations) > 20 {
@@ -199,10 +206,17 @@ func runMapProgram(e *mapEnv, nOps, mode, valProf, opProf int) {
 	salt := uint64(e.rng.Int63())
 	// digest modes: 0 real; 1 collisions at level 0 only; 2 at deeper levels too; 3 all levels tiny
 	// (full collisions); 4 level-0 tiny with a small collision limit; 5 few levels
+	e.hip = hx.HashInput
 	switch mode {
 	case 0:
 		e.b = atree.NewDefaultDigesterBuilder()
 		e.L = 4
+	case 6:
+		// the library's own (pooled) digester with a non-injective hash input: real collisions on
+		// all levels between keys of one bucket
+		e.b = atree.NewDefaultDigesterBuilder()
+		e.L = 4
+		e.hip = hx.HashInputBucket
 	default:
 		e.L = 4
 		alph := []uint64{1 << 62, 1 << 62, 1 << 62, 1 << 62}
@@ -219,6 +233,10 @@ func runMapProgram(e *mapEnv, nOps, mode, valProf, opProf int) {
 		case 5:
 			e.L = uint(1 + e.rng.Intn(3))
 			alph = []uint64{5, 3, 2, 2}
+		case 7:
+			// about one key per first-level digest: singles, pairs and triples side by side, so that
+			// multi-slab maps contain external groups that collapse when one member is removed
+			alph = []uint64{150, 1 << 62, 1 << 62, 1 << 62}
 		}
 		e.b = &hx.TableDigesterBuilder{L: e.L, Fn: func(k hx.TV, l uint) uint64 {
 			return mix(k.Pay, uint64(l), salt) % alph[l] * 1000003
@@ -246,6 +264,9 @@ func runMapProgram(e *mapEnv, nOps, mode, valProf, opProf int) {
 	e.st.Dist[fmt.Sprintf("digestMode=%d", mode)]++
 
 	nKeys := 20 + e.rng.Intn(300)
+	if mode == 7 {
+		nKeys = 150 + e.rng.Intn(100)
+	}
 	for i := 0; i < nKeys; i++ {
 		size := uint32(3 + e.rng.Intn(14))
 		if e.rng.Intn(10) == 0 {
@@ -309,7 +330,7 @@ func runMapProgram(e *mapEnv, nOps, mode, valProf, opProf int) {
 		case "set":
 			v := e.genValue(valProf)
 			w.L("OP mset h=0 k=%s v=%d:%d", e.keyStr(k), v.Size, v.Pay)
-			old, err := e.m.Set(hx.CompareKey, hx.HashInput, k, v)
+			old, err := e.m.Set(hx.CompareKey, e.hip, k, v)
 			if err != nil {
 				w.L("OBS err:%s", hx.ErrKind(err))
 				if hx.ErrKind(err) == "CollisionLimit:Fatal" {
@@ -344,7 +365,7 @@ func runMapProgram(e *mapEnv, nOps, mode, valProf, opProf int) {
 			}
 		case "rem":
 			w.L("OP mrem h=0 k=%s", e.keyStr(k))
-			ks, vs, err := e.m.Remove(hx.CompareKey, hx.HashInput, k)
+			ks, vs, err := e.m.Remove(hx.CompareKey, e.hip, k)
 			if err != nil {
 				w.L("OBS err:%s", hx.ErrKind(err))
 				if present || hx.ErrKind(err) != "KeyNotFound:User" {
@@ -412,7 +433,7 @@ func runMapProgram(e *mapEnv, nOps, mode, valProf, opProf int) {
 			switch q := e.rng.Intn(10); {
 			case q < 4:
 				w.L("OP mget h=0 k=%s", e.keyStr(k))
-				v, err := e.m.Get(hx.CompareKey, hx.HashInput, k)
+				v, err := e.m.Get(hx.CompareKey, e.hip, k)
 				if err != nil {
 					w.L("OBS err:%s", hx.ErrKind(err))
 					if present || hx.ErrKind(err) != "KeyNotFound:User" {
@@ -426,7 +447,7 @@ func runMapProgram(e *mapEnv, nOps, mode, valProf, opProf int) {
 				}
 			case q < 6:
 				w.L("OP mhas h=0 k=%s", e.keyStr(k))
-				has, err := e.m.Has(hx.CompareKey, hx.HashInput, k)
+				has, err := e.m.Has(hx.CompareKey, e.hip, k)
 				if err != nil {
 					w.L("OBS err:%s", hx.ErrKind(err))
 					e.violation("C02", "Has failed: "+err.Error())
@@ -448,7 +469,7 @@ func runMapProgram(e *mapEnv, nOps, mode, valProf, opProf int) {
 		}
 		if e.step%25 == 24 || e.step == nOps-1 {
 			w.L("FULL h=0 %s", hx.DumpTree(e.ps, atree.VerifMapRoot(e.m)))
-			if err := atree.VerifyMap(e.m, e.addr, e.ty, func(a, b atree.TypeInfo) bool { return a == b }, hx.HashInput, true); err != nil {
+			if err := atree.VerifyMap(e.m, e.addr, e.ty, func(a, b atree.TypeInfo) bool { return a == b }, e.hip, true); err != nil {
 				// VerifyMap recomputes digests with the map's builder: valid for every digest mode
 				e.violation("C05", "VerifyMap: "+err.Error())
 			}
@@ -479,7 +500,7 @@ func (e *mapEnv) iterate(q int) {
 	case 8:
 		mode = "mut"
 		w.L("OP miter h=0 mode=mut")
-		err = e.m.Iterate(hx.CompareKey, hx.HashInput, func(k, v atree.Value) (bool, error) {
+		err = e.m.Iterate(hx.CompareKey, e.hip, func(k, v atree.Value) (bool, error) {
 			kt, _ := k.(hx.TV)
 			vt, _ := v.(hx.TV)
 			got = append(got, kv{kt, vt})
@@ -524,7 +545,7 @@ func (e *mapEnv) iterate(q int) {
 	// canonical order: ascending digest path; fully colliding keys in insertion order (checked by the model)
 	digs := make([][]uint64, len(got))
 	for i, p := range got {
-		digs[i], _ = hx.Digests(e.b, p.k)
+		digs[i], _ = hx.DigestsWith(e.b, e.hip, p.k)
 	}
 	if !sort.SliceIsSorted(digs, func(i, j int) bool {
 		for l := range digs[i] {
@@ -647,7 +668,7 @@ func (e *mapEnv) checkReload(when string) {
 	if n != len(e.committed) && len(e.st.Violations) == 0 {
 		e.violation("C03", fmt.Sprintf("reload %s: iterated %d pairs, committed content has %d", when, n, len(e.committed)))
 	}
-	if err := atree.VerifyMap(m, e.addr, e.committedTy, func(a, b atree.TypeInfo) bool { return a == b }, hx.HashInput, true); err != nil {
+	if err := atree.VerifyMap(m, e.addr, e.committedTy, func(a, b atree.TypeInfo) bool { return a == b }, e.hip, true); err != nil {
 		e.violation("C03", "reload "+when+": the committed registers do not form a valid map: "+err.Error())
 	}
 }
